@@ -67,6 +67,11 @@ def run(pid, cfg, tier, seed, replay, ck):
         tmpl = open(os.path.join(VERIF, "configs", "quick-reference.yaml.tmpl")).read()
         refcfg = os.path.join(wd, "quick-reference.yaml")
         open(refcfg, "w").write(tmpl.replace("@SECOND@", third))
+        # HTTP/3 (QUIC, TLS only) has its own transport glue in both reference peers: same reduction,
+        # another second compression (HTTP/2 is listed because gRPC requires it; --run selects HTTP/3)
+        h3cfg = os.path.join(wd, "quick-reference-h3.yaml")
+        open(h3cfg, "w").write(tmpl.replace("@SECOND@", comps[(seed + 2) % len(comps)]).replace("  - HTTP_VERSION_1\n  - HTTP_VERSION_2\n", "  - HTTP_VERSION_2\n  - HTTP_VERSION_3\n"))
+        assert "HTTP_VERSION_3" in open(h3cfg).read()
     else:
         refcfg = os.path.join(T, "reference-impls-config.yaml")
     b = lambda n: os.path.join(BIN, n)
@@ -77,6 +82,11 @@ def run(pid, cfg, tier, seed, replay, ck):
         ("grpc-client", ["--conf", os.path.join(T, "grpc-impls-config.yaml"), "--mode", "client", "--known-failing", "@" + os.path.join(T, "grpcclient-known-failing.txt"), "--", b("grpcclient")]),
         ("grpc-web-server", ["--conf", os.path.join(T, "grpc-web-server-impl-config.yaml"), "--mode", "server", "--known-failing", "@" + os.path.join(T, "grpcserver-web-known-failing.txt"), "--", b("grpcserver")]),
     ]
+    if tier == "quick":
+        runs += [
+            ("reference-server-h3", ["--run", "**/HTTPVersion:3/**", "--conf", h3cfg, "--mode", "server", "--known-failing", "@" + os.path.join(T, "referenceserver-known-failing.txt"), "--", b("referenceserver")]),
+            ("reference-client-h3", ["--run", "**/HTTPVersion:3/**", "--conf", h3cfg, "--mode", "client", "--known-failing", "@" + os.path.join(T, "referenceclient-known-failing.txt"), "--", b("referenceclient")]),
+        ]
     if replay:
         rp = json.load(open(replay))
         names = [l.get("name") for l in rp.get("lines", []) if l.get("name")]
@@ -97,7 +107,7 @@ def run(pid, cfg, tier, seed, replay, ck):
         return r, text
 
     results = []
-    with cf.ThreadPoolExecutor(max_workers=5) as ex:
+    with cf.ThreadPoolExecutor(max_workers=len(runs)) as ex:
         futs = [ex.submit(one, n, a) for n, a in runs]
         for f in futs:
             results.append(f.result())
@@ -143,23 +153,29 @@ def run(pid, cfg, tier, seed, replay, ck):
             if r["known_matched"] is not None and r["expected_failures"] != r["known_matched"] and not r["failed_names"]:
                 problems.append(f"known-failing: {r['known_matched']} listed permutations but {r['expected_failures']} failed as expected")
         # re-run unexpected failures in isolation
-        persistent = []
-        for name in r["failed_names"][:20]:
-            fails = 0
-            for k in range(3):
-                # alone and sequentially: client mode -> the client under test gets "-p 1", server mode -> --parallel 1
-                a2 = (args + ["-p", "1"]) if "client" in run_name else args
-                ex2 = ["--run", name, "--max-servers", "1"] + ([] if "client" in run_name else ["--parallel", "1"])
-                rr, tt = one(run_name, a2, extra=ex2, tag=f".rerun{k}")
-                rerun_log.append({"run": run_name, "name": name, "attempt": k, "exit": rr["exit"], "failed": rr["failed"], "total": rr["total"]})
-                if rr["exit"] != 0 or (rr["failed"] or 0) > 0 or not rr["total"]:
-                    fails += 1
-                else:
-                    break
-            if fails == 3:
-                persistent.append(name)
-        if len(r["failed_names"]) > 20:
-            persistent += r["failed_names"][20:]
+        # alone and sequentially: client mode -> the client under test gets "-p 1", server mode ->
+        # --parallel 1; one server at a time. All failing names go into one invocation (several
+        # --run patterns); a name is persistent only if it fails in each of 3 such re-runs.
+        persistent = list(r["failed_names"][:200])
+        for k in range(3):
+            if not persistent:
+                break
+            base = list(args)
+            while "--run" in base:  # the run's own selection is replaced by the failing names
+                i = base.index("--run")
+                del base[i:i + 2]
+            a2 = (base + ["-p", "1"]) if "client" in run_name else base
+            ex2 = ["--max-servers", "1"] + ([] if "client" in run_name else ["--parallel", "1"])
+            for name in persistent:
+                ex2 += ["--run", name]
+            rr, tt = one(run_name, a2, extra=ex2, tag=f".rerun{k}")
+            rerun_log.append({"run": run_name, "names": len(persistent), "attempt": k, "exit": rr["exit"], "failed": rr["failed"], "total": rr["total"]})
+            if not rr["total"]:
+                continue  # the re-run itself did not complete: everything stays suspect
+            still = set(rr["failed_names"])
+            persistent = [n for n in persistent if n in still]
+        if len(r["failed_names"]) > 200:
+            persistent += r["failed_names"][200:]
         # known finding F22 (schedule-dependent race of the grpc-go server behind grpc-web over HTTP/1.1)
         f22 = []
         for n in list(persistent):
@@ -192,7 +208,7 @@ def run(pid, cfg, tier, seed, replay, ck):
             violations.append((p, ""))
     cov.update({
         "explanation": "exhaustive enumeration of the implementation half: the runner built from the tree executes every permutation of the embedded corpus for the "
-                       + ("five shipped runs unreduced" if tier == "thorough" else f"reference pair on the reduced matrix HTTP/1.1+2, identity+{third} and the three gRPC-peer runs in full")
+                       + ("five shipped runs unreduced" if tier == "thorough" else f"reference pair on the reduced matrices HTTP/1.1+2 x identity+{third} and HTTP/3 x identity+{comps[(seed + 2) % len(comps)]}, and the three gRPC-peer runs in full")
                        + "; requires exit 0, zero unexpected failures, nothing could-not-run, totals = computed permutations, known-failing lists exact; failures re-run 3x in isolation",
         "evaluations": total_cases, "distinct_nontrivial": total_cases if nontrivial >= 1 else 0,
         "rule": "one evaluation = one permutation (config case x embedded test case) executed by the real runner against real peers; each is distinct by name; non-trivial = it produced an outcome",
